@@ -134,6 +134,10 @@ func c11Program(pg *gen.PG, i int) (string, []*canon.Node) {
   (trace! (let (x %[2]d) ((fn (x) (let (x (+ x 1)) x)) x)))
   (def let-race%[1]s (fn (n acc) (if (< n 1) acc (let (fu (future (let (k 1) (+ k %[2]d))) lit1 1 lit2 "two" lit3 lit1 lit4 :four) (let-race%[1]s (- n 1) (+ acc (+ (- @fu %[2]d) lit3)))))))
   (trace! (list :let-with-future (let-race%[1]s 25 0)))
+  (def nested-race%[1]s (fn (n acc) (if (< n 1) acc (let (k %[2]d fu (or nil (future (+ k 1))) lit1 1 lit2 "two" lit3 lit1 lit4 :four fv (let (j 2) (future (+ k (+ j lit3)))) lit5 5 lit6 6 lit7 lit5) (nested-race%[1]s (- n 1) (+ acc (+ (- @fu k) (+ (- @fv k) lit7))))))))
+  (trace! (list :futures-made-in-scopes-nested-in-a-let-still-being-bound (nested-race%[1]s 25 0)))
+  (def body-race%[1]s (fn (n x acc) (if (< n 1) acc (let (fu ((fn (p) (def fu-local (let (y 1) (future (+ p (+ x y))))) (def late1 1) (def late2 2) (def late3 (+ late1 late2)) (list fu-local late3)) n)) (body-race%[1]s (- n 1) x (+ acc (+ (- @(first fu) (+ n x)) (first (rest fu)))))))))
+  (trace! (list :future-made-in-a-let-inside-a-function-body-that-goes-on-defining (body-race%[1]s 25 %[2]d 0)))
   (def bump-loop%[1]s (fn (n) (if (< n 1) :bumped (do (bump-host-counter!) (bump-loop%[1]s (- n 1))))))
   (trace! (bump-loop%[1]s 40))
   (defmacro two-temps%[1]s (fn (a b) (let (x (gensym) y (gensym)) (list 'let (list x a y b) (list 'list x y)))))
@@ -461,7 +465,7 @@ func init() {
 		Race:   true,
 		Run:    runC11,
 		Shards: func(tier string) int { return 8 },
-		Rule:   "seeded batches of T in {2,4,8,16} programs evaluated simultaneously on one environment preloaded with all libraries, under the Go race detector: thread i runs a generated program (closures, macros, try/catch, quasiquote, 5% faults) over global names suffixed _ti plus isolation probes that use the same local names (x y z e) in every thread with thread-tagged values (deep let/parameter recursion, catch variable, or/and gensym temporaries, ->, cond, a private memoized function, a future) and defines a 64-element tagged vector; two reader threads poll every thread's vector (unbound or complete); each thread's result and per-goroutine trace must equal its solo run in an identical environment (modulo gensym numbering); distinct = distinct thread-0 program texts; a def inside a parameterless function body and inside a future body (same name in every program) must read back its own value and leave the shared environment without that name",
+		Rule:   "seeded batches of T in {2,4,8,16} programs evaluated simultaneously on one environment preloaded with all libraries, under the Go race detector: thread i runs a generated program (closures, macros, try/catch, quasiquote, 5% faults) over global names suffixed _ti plus isolation probes that use the same local names (x y z e) in every thread with thread-tagged values (deep let/parameter recursion, catch variable, or/and gensym temporaries, ->, cond, a private memoized function, a future, futures created in scopes nested inside a let that is still being bound (through or / an inner let) and in a let inside a function body that goes on defining locals) and defines a 64-element tagged vector; two reader threads poll every thread's vector (unbound or complete); each thread's result and per-goroutine trace must equal its solo run in an identical environment (modulo gensym numbering); distinct = distinct thread-0 program texts; a def inside a parameterless function body and inside a future body (same name in every program) must read back its own value and leave the shared environment without that name",
 		Assume: []string{"no Stepper installed (process-wide by design)", "registration of builtins happens before evaluation starts"},
 		Finish: func(m *fw.Merged) {
 			m.Floor("batches", 20)
